@@ -1,6 +1,6 @@
 """C07 -- namespace and subpath structure cannot be forged or climb upwards (DESIGN.md 5.7)."""
 from purlsa.core import AnchorError, strip
-from purlsa.sem import norm, nshow, fmt_pieces
+from purlsa.sem import norm, nshow, fmt_pieces, FilterGuard
 from purlsa import models
 from purlsa.models import show_canon, show_region
 
@@ -145,6 +145,9 @@ def rule_segloop(ctx):
         for gb, c in gat:
             if (c[0] == "inlist" or c[0] == "empty") and (c[2] == ITEM or c[1] == ITEM):
                 tgts = [tg for (lab, tg) in body.edges(gb) if not (tg == app["bb"] or app["bb"] in body.reachable_feasible(tg, avoid={gb}))]
+                if isinstance(gb, FilterGuard):
+                    ctx.ob("SEGLOOP", I("(ii) a skipped raw segment continues the loop without touching the result"), True, fn=key, site=body.site(int(gb)), detail=show_canon(c) + " (dropped by Iterator::filter)")
+                    continue
                 cont = all(h in body.reachable_feasible(tg, avoid={gb}) and not any(b in dict(models.returns(body)) for b in body.reachable_feasible(tg, avoid={gb, h})) for tg in tgts) and bool(tgts)
                 ctx.ob("SEGLOOP", I("(ii) a skipped raw segment continues the loop without touching the result"), cont, fn=key, site=body.site(gb), detail=show_canon(c))
         # strict decode dominates
